@@ -404,17 +404,25 @@ fn dkim_sign_fixed_time(message: &mut Message, dkim_config: &DkimConfig, timesta
             crate::base64::encode(private_key.sign(&hashed_headers).to_bytes())
         }
     };
-    let dkim_header = dkim_header_format(
-        dkim_config,
-        timestamp,
-        &signed_headers_list,
-        &bh,
-        &signature,
-    );
-    message.headers.insert_raw(HeaderValue::new(
-        HeaderName::new_from_ascii_str("DKIM-Signature"),
-        dkim_header.get_raw("DKIM-Signature").unwrap().to_owned(),
-    ));
+    // The field that was hashed is the one with an empty `b=` value: a verifier
+    // recovers it by deleting the value of `b=` from what it receives. So the
+    // signature goes into that very text (folded on lines of its own), instead
+    // of folding the completed value anew, which could break lines elsewhere.
+    let unsigned = dkim_header
+        .find_header("DKIM-Signature")
+        .expect("the field was just built");
+    let mut encoded = unsigned.get_encoded().to_owned();
+    for chunk in signature.as_bytes().chunks(72) {
+        encoded.push_str("\r\n ");
+        encoded.push_str(std::str::from_utf8(chunk).expect("base64 is ASCII"));
+    }
+    message
+        .headers
+        .insert_raw(HeaderValue::dangerous_new_pre_encoded(
+            HeaderName::new_from_ascii_str("DKIM-Signature"),
+            format!("{}{}", unsigned.get_raw(), signature),
+            encoded,
+        ));
 }
 
 #[cfg(test)]
